@@ -174,8 +174,10 @@ def run(cfg):
         sf = mod.fn('TestDataGenerator._add_test_items_for_samples')
         ssrc = ast.unparse(sf.node)
         fors = [n for n in ast.walk(sf.node) if isinstance(n, ast.For)]
-        okm = any(ast.unparse(n.iter) == 'range(self.start_year, self.until_year)' for n in fors) and any(ast.unparse(n.iter) == 'range(1, 13)' for n in fors)
-        yend = "'Y'" in ssrc and re.search(r'datetime\(year, 12, 31', ssrc) is not None
+        okm = any(_u(n.iter) == 'range(self.start_year, self.until_year)' for n in fors) and any(_u(n.iter) == 'range(1, 13)' for n in fors)
+        yv = [n.target.id for n in fors if _u(n.iter) == 'range(self.start_year, self.until_year)' and isinstance(n.target, ast.Name)]
+        yend = "'Y'" in ssrc and any(isinstance(n, ast.Call) and _u(n.func).split('.')[-1] == 'datetime' and len(n.args) >= 3
+                                     and [_u(a) for a in n.args[:3]] == [yv[0] if yv else None, '12', '31'] for n in ast.walk(sf.node))
         nadd = len([n for n in ast.walk(sf.node) if isinstance(n, ast.Call) and ast.unparse(n.func).endswith('_add_test_item')])
         ob('R4', '%s._add_test_items_for_samples' % name, sf.loc, okm and yend and nadd == 2,
            'monthly samples for range(1, 13) of every year in range(start_year, until_year) plus one Dec-31 sample are expected')
@@ -202,6 +204,27 @@ def _lit_before(joined, varname):
             return [prev] if prev is not None else []
         prev = v.value if isinstance(v, ast.Constant) else None
     return out
+
+
+def _fold_binop(n):
+    if isinstance(n.left, ast.Constant) and isinstance(n.right, ast.Constant) and type(n.left.value) is int and type(n.right.value) is int:
+        a, b = n.left.value, n.right.value
+        v = {ast.Add: lambda: a + b, ast.Sub: lambda: a - b, ast.Mult: lambda: a * b}.get(type(n.op))
+        if v is not None:
+            return ast.copy_location(ast.Constant(value=v()), n)
+    return n
+
+
+class _Fold(ast.NodeTransformer):
+    def visit_BinOp(self, n):
+        self.generic_visit(n)
+        return _fold_binop(n)
+
+
+def _u(node):
+    """source text of an expression with integer constant arithmetic folded."""
+    import copy
+    return ast.unparse(_Fold().visit(copy.deepcopy(node)))
 
 
 def _is_adapter(stmt):
@@ -233,6 +256,40 @@ def _masked(fn):
                 used_elsewhere.add(x.id)
     used_in_adapters = {x.id for n in adapters for x in ast.walk(n) if isinstance(x, ast.Name) and isinstance(x.ctx, ast.Load)}
     out = []
+    local_names = {x.id for x in ast.walk(fn) if isinstance(x, ast.Name) and isinstance(x.ctx, ast.Store)} | \
+        {a.arg for a in fn.args.args + fn.args.kwonlyargs}
+
+    class Norm(ast.NodeTransformer):
+        """names of locals are replaced by the order of their first appearance in the retained statements, dict displays are
+        ordered by key and the operands of and/or by their text: spelling differences between the copies that cannot change
+        what the generator produces."""
+        names = {}
+
+        def visit_Name(self, n):
+            if n.id in local_names:
+                return ast.copy_location(ast.Name(id=self.names.setdefault(n.id, 'v%d' % len(self.names)), ctx=n.ctx), n)
+            return n
+
+        def visit_Dict(self, n):
+            self.generic_visit(n)
+            if all(isinstance(k, ast.Constant) for k in n.keys):
+                pairs = sorted(zip(n.keys, n.values), key=lambda kv: repr(kv[0].value))
+                n.keys, n.values = [k for k, _ in pairs], [v for _, v in pairs]
+            return n
+
+        def visit_BoolOp(self, n):
+            self.generic_visit(n)
+            n.values = sorted(n.values, key=ast.dump)
+            return n
+
+        def visit_BinOp(self, n):
+            self.generic_visit(n)
+            return _fold_binop(n)
+    norm = Norm()
+
+    def dump(node):
+        import copy
+        return ast.dump(norm.visit(copy.deepcopy(node)))
 
     def is_lookup_error_exit(node):
         body = node.body if isinstance(node, ast.If) else [s for h in node.handlers for s in h.body]
@@ -256,13 +313,13 @@ def _masked(fn):
             if isinstance(node, ast.Assign) and isinstance(node.targets[0], ast.Name) and node.targets[0].id in used_in_adapters \
                     and node.targets[0].id not in used_elsewhere:
                 return
-            out.append((depth, ast.dump(node)))
+            out.append((depth, dump(node)))
             return
         head = type(node).__name__
         if isinstance(node, ast.For):
-            head += ':' + ast.dump(node.target) + ':' + ast.dump(node.iter)
+            head += ':' + dump(node.target) + ':' + dump(node.iter)
         elif isinstance(node, (ast.While, ast.If)):
-            head += ':' + ast.dump(node.test)
+            head += ':' + dump(node.test)
         out.append((depth, head))
         for fld in ('body', 'orelse', 'finalbody'):
             for st in getattr(node, fld, []) or []:
@@ -290,4 +347,20 @@ SELFTEST = [
     dict(id='dedup-ignores-hour', edits=[
         dict(file='tools/compare_pytz/tdgenerator.py', find="or current['d'] != item['d'] or current['h'] != item['h']", replace="or current['d'] != item['d']"),
         dict(file='tools/compare_dateutil/tdgenerator.py', find="or current['d'] != item['d'] or current['h'] != item['h']", replace="or current['d'] != item['d']")], rule='R4'),
+    # behaviour-preserving rewrites: the rules must stay quiet
+    dict(id='render-locals-reordered-silent', file='tools/validation/arvalgenerator.py',
+         find="            year = test_item['y']\n            month = test_item['M']\n", replace="            month = test_item['M']\n            year = test_item['y']\n", expect='silent'),
+    dict(id='render-local-renamed-silent', edits=[
+        dict(file='tools/validation/arvalgenerator.py', find="            hour = test_item['h']\n", replace="            hh = test_item['h']\n"),
+        dict(file='tools/validation/arvalgenerator.py', find='{hour:2}', replace='{hh:2}')], expect='silent'),
+    dict(id='months-range-spelled-differently-silent', edits=[
+        dict(file='tools/compare_pytz/tdgenerator.py', find='            for month in range(1, 13):', replace='            for month in range(1, 12 + 1):'),
+        dict(file='tools/compare_dateutil/tdgenerator.py', find='            for month in range(1, 13):', replace='            for month in range(1, 12 + 1):')], expect='silent'),
+    dict(id='one-copy-renames-a-local-silent', file='tools/compare_dateutil/tdgenerator.py', regex=True,
+         find=r'(def binary_search_transition.*?return dt_left, dt_right)', replace=lambda m: m.group(1).replace('dt_mid', 'middle'), expect='silent'),
+    dict(id='one-copy-reorders-item-keys-silent', file='tools/compare_dateutil/tdgenerator.py',
+         find="            'y': dt.year,\n            'M': dt.month,\n", replace="            'M': dt.month,\n            'y': dt.year,\n", expect='silent'),
+    dict(id='dedup-comparisons-reordered-silent', file='tools/compare_pytz/tdgenerator.py',
+         find="            if (current['total_offset'] != item['total_offset']\n                    or current['dst_offset'] != item['dst_offset']",
+         replace="            if (current['dst_offset'] != item['dst_offset']\n                    or current['total_offset'] != item['total_offset']", expect='silent'),
 ]
